@@ -16,7 +16,7 @@ from .. import contexts as C
 from .. import segmap as S
 from ..segmap import Seg
 from ..core import St, PathEnd
-from ..d1rules import psd_classes, ctor_args, blocked, PSD_FIELD
+from ..d1rules import psd_classes, ctor_args, blocked, PSD_FIELD, report_conflicts
 
 PROP = 'C02'
 LEVEL = 'proof'
@@ -37,6 +37,7 @@ def reference_structures(cplx, parity):
 
 
 def run(prog, rep, tier='quick'):
+    seen_idx = set()
     rep.explanation = (
         'Decides, for all data and all NFFT of each parity, the length, bin-alignment and realness clauses of C02 for '
         'the 12 PSD classes: len(psd) == len(frequencies()) with NFFT unchanged, slot i <-> bin i through the whole '
@@ -62,6 +63,10 @@ def run(prog, rep, tier='quick'):
                 nctx += 1
                 where = loc(cls.mod, cls.node)
                 if blocked(rep, 'len', cls.qname, label, itp):
+                    continue
+                # an index computed by rounding an exact half-integer alternates between floor and ceiling: a definite defect of
+                # the layout for every other size (reported once per construct; the derived map is not meaningful then)
+                if report_conflicts(rep, 'axis', itp, ('index',), '%s,%s' % (cls.name, label), seen_idx):
                     continue
                 psd = obj.f.get(PSD_FIELD) if obj is not None else None
                 if not ok or not isinstance(psd, Num):
